@@ -8,6 +8,8 @@ import (
 	"fmt"
 	"net"
 	"net/http"
+	"os"
+	"strconv"
 	"sync"
 	"time"
 
@@ -176,8 +178,13 @@ func (rm *RegistrationManager) ingestRegistration(reg *DecoyRegistration) {
 	}
 	if covert == "" {
 		// We log client IPs for clients attempting to connect to
-		// blocklisted covert addresses.
-		logger.Infof("Dropping reg, malformed or blocklisted covert: %v, %s -> %s", reg.IDString(), reg.GetRegistrationAddress(), reg.Covert)
+		// blocklisted covert addresses, but only if the operator enabled
+		// client IP logging (the same switch the connection handling uses).
+		registrant := "_"
+		if logClientIP() {
+			registrant = reg.GetRegistrationAddress()
+		}
+		logger.Infof("Dropping reg, malformed or blocklisted covert: %v, %s -> %s", reg.IDString(), registrant, reg.Covert)
 		Stat().AddErrReg()
 		rm.AddErrReg()
 		return
@@ -235,6 +242,12 @@ func (rm *RegistrationManager) ingestRegistration(reg *DecoyRegistration) {
 	Stat().AddReg(reg.DecoyListVersion, reg.RegistrationSource)
 	rm.AddRegStats(reg)
 	handleConnectingTpReg(rm, reg, logger)
+}
+
+// logClientIP reports whether the operator enabled logging of client addresses (LOG_CLIENT_IP).
+func logClientIP() bool {
+	enabled, err := strconv.ParseBool(os.Getenv("LOG_CLIENT_IP"))
+	return err == nil && enabled
 }
 
 func tryShareRegistrationOverAPI(reg *DecoyRegistration, apiEndpoint string, logger *log.Logger) {
